@@ -118,6 +118,46 @@ def exact_levels_at_n1(rep, rng, tier, ED):
                                     call=f"EmpiricalDistribution(ys, a={a}, b={b}).quantile_tuning_curve({n1!r}, q=cdf({y}), minimize={mn})")
 
 
+def layout_probe(rep, rng, tier, ED):
+    """every curve on the same ns in several shapes and MEMORY LAYOUTS (C.shape_probe: scalars, length-1 / length-0 axes, 2-D and 3-D, Fortran
+    order, transposed / strided / reversed views): result[idx] must be the curve at ns[idx].  The reference is the curve on the 1-D array,
+    which the main stream judges against the exact model."""
+    for si in range(6 if tier == "quick" else 60):
+        N = rng.choice([3, 5, 8, 12])
+        ys = [round(rng.uniform(-9, 9), 2) for _ in range(N)]
+        weighted = si % 3 == 2
+        ws = None
+        if weighted:
+            raw = [rng.randint(1, 9) for _ in range(N)]
+            ws = [r / sum(raw) for r in raw]
+        with warnings.catch_warnings():
+            warnings.simplefilter("ignore")
+            d = ED(ys, ws=ws)
+        ns_int = [1, 2, 3, 5, 8, N, N + 2, 1, 4, 7, 2, 6]
+        ns_real = [0.5, 1.0, 1.5, 2.25, 3.0, 7.5, 12.0, 0.1, 40.0, 2.0, 5.0, 9.5]
+        mn = rng.random() < 0.5
+        q = rng.choice([0.25, 0.5, 0.9])
+        curves = [("quantile_tuning_curve", lambda ns: d.quantile_tuning_curve(ns, q=q, minimize=mn), ns_real),
+                  ("average_tuning_curve", lambda ns: d.average_tuning_curve(ns, minimize=mn), ns_real)]
+        if not weighted:
+            curves += [("naive_tuning_curve", lambda ns: d.naive_tuning_curve(ns, minimize=mn), ns_int),
+                       ("v_tuning_curve", lambda ns: d.v_tuning_curve(ns, minimize=mn), ns_int),
+                       ("u_tuning_curve", lambda ns: d.u_tuning_curve(ns, minimize=mn), ns_int)]
+        for name, fn, grid in curves:
+            rep.count("layout_probe:" + name)
+            rep.case(("layout", name, si), nontrivial=False)
+            try:
+                with warnings.catch_warnings():
+                    warnings.simplefilter("ignore")
+                    fails = C.shape_probe(fn, grid)
+            except Exception as e:  # noqa: BLE001
+                fails = [("?", "raised " + repr(e))]
+            for sh, msg in fails[:1]:
+                rep.violate(what=f"{name}: {msg} (scalars must map to scalars, arrays to arrays of the same shape, element by element)",
+                            input=dict(ys=ys, ws=ws, ns=grid, q=q, minimize=mn), shape=list(sh) if sh != "?" else None,
+                            call=f"EmpiricalDistribution(ys, ws).{name}(ns arranged in that shape / layout, minimize={mn})")
+
+
 def run(seed, tier, replay=None):
     from opda.nonparametric import EmpiricalDistribution as ED
     rep = C.Report("C04", seed, tier)
@@ -432,6 +472,7 @@ def run(seed, tier, replay=None):
                     break
     if replay is None:
         exact_levels_at_n1(rep, C.rng_for("C04-n1-levels", seed), tier, ED)
+        layout_probe(rep, C.rng_for("C04-layouts", seed), tier, ED)
     return rep.result(
         rule="structured samples (sizes 1-40 with ties/infinite values/weights, plus unweighted samples of >1000 points); n: 1,2,3,N-1,N,"
              "N+1,2N+3,64 and random integers (exact rational model), real n in [0.1,1000] (exact levels from the model, 50-digit "
